@@ -2,7 +2,7 @@
     Property theorems only; each closed by [exact] of a lemma of C08/DurProofs.v.
     A timedelta is its exact number of microseconds [n]; [td_ok n] is the range
     of datetime.timedelta (|normalised days| <= 999999999). *)
-From SpyneV Require Import Base.Digits C08.DtModel C08.DurModel C08.DurProofs.
+From SpyneV Require Import Base.Digits C08.DtModel C08.DurModel C08.DurLang C08.DurProofs.
 
 (** A. print-then-read is the identity on every timedelta: negative, zero, whole
     days, every combination of present/absent D/H/M/S components, microseconds *)
@@ -46,6 +46,19 @@ Proof. exact duration_total. Qed.
 Theorem C08_duration_out_of_range : forall n, td_ok n = false ->
   duration_from_unicode (duration_to_unicode n) = VFault.
 Proof. exact duration_roundtrip_range. Qed.
+
+(** the repaired behaviour (regex anchored with \Z): the reader ignores no part of
+    its input.  Whenever it returns a value, the WHOLE text is a word of
+    -?P(nY)?(nM)?(nD)?(T(nH)?(nM)?(n(.f)?S)?)? cut into exactly those pieces
+    ([dur_lang], C08/DurLang.v, stated without the scanners), and the value is
+    the one the pieces denote. *)
+Theorem C08_dur_no_trailing_junk : forall s n, duration_from_unicode s = Ok n -> dur_lang s n.
+Proof. exact duration_no_trailing_junk. Qed.
+
+(** in particular anything appended to "PT<k>S" is refused, whatever it is *)
+Theorem C08_dur_suffix_rejected : forall k x junk, 0 <= k ->
+  duration_from_unicode (80 :: 84 :: str_nat k ++ 83 :: x :: junk) = VFault.
+Proof. exact duration_rejects_suffix_after_S. Qed.
 
 (** E. Boolean *)
 Theorem C08_boolean_roundtrip : forall b, boolean_from_unicode (boolean_to_unicode b) = b.
@@ -101,6 +114,18 @@ Proof. vm_compute. auto. Qed.
 Example C08_ex_duration_out_of_range :
   td_ok (1000000000 * US_DAY) = false
   /\ duration_from_unicode (duration_to_unicode (1000000000 * US_DAY)) = VFault.
+Proof. vm_compute. auto. Qed.
+(* "P1Y2M3DT4H5M6.5S" is accepted in full; "P1Djunk", "P1DT", "P1D " + newline-like junk are refused *)
+Example C08_ex_dur_no_trailing_junk :
+  duration_from_unicode [80; 49; 89; 50; 77; 51; 68; 84; 52; 72; 53; 77; 54; 46; 53; 83]
+  = Ok ((3 + 2 * 30 + 1 * 365) * US_DAY + 4 * 3600000000 + 5 * 60000000 + 6500000)
+  /\ duration_from_unicode [80; 49; 68; 106; 117; 110; 107] = VFault
+  /\ duration_from_unicode [80; 49; 68; 10] = VFault
+  /\ duration_from_unicode [80; 49; 68] = Ok US_DAY.
+Proof. vm_compute. auto. Qed.
+Example C08_ex_dur_suffix_rejected :
+  duration_from_unicode (80 :: 84 :: str_nat 5 ++ 83 :: 32 :: []) = VFault
+  /\ duration_from_unicode (80 :: 84 :: str_nat 5 ++ 83 :: []) = Ok 5000000.
 Proof. vm_compute. auto. Qed.
 Example C08_ex_boolean_roundtrip :
   boolean_from_unicode (boolean_to_unicode true) = true
